@@ -5,6 +5,7 @@ import (
 	"fmt"
 	"math/rand"
 	"net/http"
+	"net/url"
 	"runtime/debug"
 	"sort"
 	"strings"
@@ -139,6 +140,50 @@ func checkC16(r *Run) {
 		if ti%500 == 0 {
 			debug.SetGCPercent(old)
 			debug.SetGCPercent(-1)
+		}
+	}
+	// scenarios the small alphabet of the model cannot spell: percent-encoded request paths (routed on the raw path) and
+	// nodes with more children than any inline buffer (40 hostnames with distinct first characters next to a host-less
+	// route; 40 static siblings next to a "/" leaf served through an ignored trailing slash)
+	{
+		rt, err := fox.New(fox.WithIgnoreTrailingSlash(true))
+		if err != nil {
+			failTool("fox.New: %v", err)
+		}
+		routes := []string{"/s/{x}/{y}", "/f/*{w}/end", "h.example/s/{x}", "/plain/route", "/wide/", "/tail/{x}/"}
+		first := "abcdefghijklmnopqrstuvwxyz0123456789"
+		for i := 0; i < len(first); i++ {
+			routes = append(routes, fmt.Sprintf("%ctenant.example/t/{id}", first[i]), fmt.Sprintf("/wide/%c", first[i]), fmt.Sprintf("/wide%c", first[i]))
+		}
+		for _, p := range routes {
+			if _, err := rt.Handle("GET", p, h); err != nil {
+				failTool("extra scenario route %s: %v", p, err)
+			}
+		}
+		type extra struct{ host, target string }
+		for _, ex := range []extra{
+			{"", "/s/a%2Fb/1"}, {"", "/s/x%20y/%C3%A9"}, {"", "/f/x%20y/z%2Fz/end"}, {"h.example", "/s/a%2Fb"}, {"", "/s/plain/1"},
+			{"unknown.example", "/plain/route"}, {"", "/plain/route"}, {"qtenant.example", "/t/7"}, {"9tenant.example", "/t/7"}, {"zz.example", "/s/a/b"},
+			{"", "/wide"}, {"", "/wide/"}, {"", "/wide/q"}, {"", "/wideq"}, {"", "/tail/x"}, {"unknown.example", "/tail/x"},
+		} {
+			u, err := url.ParseRequestURI(ex.target)
+			if err != nil {
+				failTool("extra scenario %s: %v", ex.target, err)
+			}
+			req, cp := newRequest("GET", ex.host, u.Path, "")
+			req.URL.RawPath = u.RawPath
+			rt.ServeHTTP(w, req)
+			_ = cp
+			for k := 0; k < 3; k++ {
+				rt.ServeHTTP(w, req)
+			}
+			allocs := testing.AllocsPerRun(10, func() { rt.ServeHTTP(w, req) })
+			scenarios++
+			kinds["extra: "+ex.host+" "+ex.target] = true
+			if allocs != 0 {
+				r.violation(fmt.Sprintf("alloc extra scenario host=%q target=%q", ex.host, ex.target), map[string]any{"kind": "vector", "routes": "parameters, infix catch-all, 36 hostnames, 36+36 static siblings", "host": ex.host, "target": ex.target,
+					"prescribed": "0 allocations per request", "obtained": allocs})
+			}
 		}
 	}
 	if scenarios == 0 {
